@@ -60,6 +60,19 @@ def installed(clock=None, uuid=None, fs=None, threads=None, quiet=True, global_t
             fdm = fake_datetime_module(clock)
             s.set(srv, "datetime", fdm)
             s.set(esa, "datetime", fdm)
+            # the simulator owns EVERY wall clock of the package, not only the two modules that read one today: any
+            # loaded BPTK_Py module that imported `datetime` (module or class) reads the virtual clock as well
+            import sys
+            import datetime as _real
+            for name in sorted(sys.modules):
+                mod = sys.modules[name]
+                if mod is None or not name.startswith("BPTK_Py.") or mod is srv or mod is esa:
+                    continue
+                cur = mod.__dict__.get("datetime")
+                if cur is _real:
+                    s.set(mod, "datetime", fdm)
+                elif cur is _real.datetime:
+                    s.set(mod, "datetime", fdm.datetime)
         if uuid is not None:
             s.set(srv, "uuid", uuid)
         if fs is not None:
